@@ -1,0 +1,49 @@
+//go:build verif
+
+package liquidvesting
+
+// Contracts for the deductive checker in /verif (comment-only; compiled only with -tags verif).
+
+/*@
+// ---- C19: liquidvesting genesis export / import
+func ExportGenesis
+    requires inv: lv_inv(lv_has, lv_val)
+    ensures nonnil: result != nil
+    ensures params: result.Params == lv_params
+    ensures counter: result.DenomCounter == lv_counter
+    ensures denoms: result.Denoms == lv_list(lv_has, lv_val)
+    ensures canonical: lv_canon(result.Denoms)
+
+// importing stores params, the counter and every denom of the document (panics on invalid params)
+func InitGenesis
+    maypanic
+    modifies lv_params, lv_counter, lv_has, lv_val
+    requires inv: lv_inv(lv_has, lv_val)
+    ensures params: lv_params == data.Params
+    ensures counter: lv_counter == data.DenomCounter
+    ensures domain: lv_has == lv_ins_has(old(lv_has), data.Denoms, len(data.Denoms))
+    ensures values: lv_val == lv_ins_val(old(lv_val), data.Denoms, len(data.Denoms))
+    ensures inv: lv_inv(lv_has, lv_val)
+    loop 1 invariant idx: 0 <= #i && #i <= len(data.Denoms)
+    loop 1 invariant scalars: lv_params == data.Params && lv_counter == data.DenomCounter
+    loop 1 invariant domain: lv_has == lv_ins_has(old(lv_has), data.Denoms, #i)
+    loop 1 invariant values: lv_val == lv_ins_val(old(lv_val), data.Denoms, #i)
+    loop 1 invariant inv: lv_inv(lv_has, lv_val)
+
+// ---- C19 round trip (ghost compositions in zz_roundtrip_verif.go)
+// a fresh chain has an empty denom store
+func verifFreshChain
+    trusted
+    modifies lv_params, lv_counter, lv_has, lv_val
+    ensures lv_has == lv_none()
+func verifReimport
+    maypanic
+    modifies lv_params, lv_counter, lv_has, lv_val
+    requires inv: lv_inv(lv_has, lv_val)
+    ensures same_state: lv_params == old(lv_params) && lv_counter == old(lv_counter) && lv_same(lv_has, lv_val, old(lv_has), old(lv_val))
+func verifReexport
+    maypanic
+    modifies lv_params, lv_counter, lv_has, lv_val
+    requires canonical: lv_canon(g.Denoms)
+    ensures same_document: result != nil && result.Params == g.Params && result.DenomCounter == g.DenomCounter && seqeq(result.Denoms, g.Denoms)
+@*/
